@@ -749,9 +749,34 @@ func (x *Exec) verify() {
 	for i, r := range results {
 		x.observe = append(x.observe, Observation{Label: fmt.Sprintf("result %d", i), T: r})
 	}
+	// split the postcondition check over the paths that meet at trivial joins before a result-less return
+	var ctxs []edgeState
+	if len(results) == 0 {
+		budget := 48
+		okSplit := true
+		for _, r := range x.rets {
+			cs := x.leafContexts(r.block, r.pc, r.st, &budget)
+			if budget < 0 {
+				okSplit = false
+				break
+			}
+			ctxs = append(ctxs, cs...)
+		}
+		if !okSplit || len(ctxs) <= 1 {
+			ctxs = nil
+		}
+	}
 	for _, c := range x.fc.Ensures {
-		goal := x.evalClause(env, c)
-		x.vc.oblige(&Obligation{Name: c.Name, Kind: "ensures", Tags: c.Tags, Goal: goal, PC: exitPC, Src: c.Src, Pos: fmt.Sprintf("%s:%d", shortPath(c.File), c.Line), Observe: x.observations()})
+		if ctxs == nil {
+			goal := x.evalClause(env, c)
+			x.vc.oblige(&Obligation{Name: c.Name, Kind: "ensures", Tags: c.Tags, Goal: goal, PC: exitPC, Src: c.Src, Pos: fmt.Sprintf("%s:%d", shortPath(c.File), c.Line), Observe: x.observations()})
+			continue
+		}
+		for k, cx := range ctxs {
+			penv := x.newEnv(cx.st, x.entry)
+			goal := x.evalClause(penv, c)
+			x.vc.oblige(&Obligation{Name: fmt.Sprintf("%s@path%d", c.Name, k+1), Kind: "ensures", Tags: c.Tags, Goal: goal, PC: cx.cond, Src: c.Src, Pos: fmt.Sprintf("%s:%d", shortPath(c.File), c.Line), Observe: x.observations()})
+		}
 	}
 	// frame
 	if x.fc.HasMod {
@@ -759,6 +784,53 @@ func (x *Exec) verify() {
 	}
 	// cover: the exit is reachable under the precondition
 	x.vc.oblige(&Obligation{Name: x.fc.Name + ".cover", Kind: "cover", Goal: tTrue, PC: exitPC, Src: "return reachable under the precondition (vacuity guard)", Cover: true})
+}
+
+func trivialBlock(b *ssa.BasicBlock) bool {
+	for _, in := range b.Instrs {
+		switch in.(type) {
+		case *ssa.RunDefers, *ssa.Return, *ssa.Jump, *ssa.DebugRef:
+		default:
+			return false
+		}
+	}
+	return true
+}
+
+// leafContexts: (path condition, state) pairs whose disjunction is the context (pc, st) at the end of block b,
+// obtained by un-merging joins of blocks that do nothing (weakest precondition distributes over the join).
+func (x *Exec) leafContexts(b *ssa.BasicBlock, pc Term, st *State, budget *int) []edgeState {
+	if !trivialBlock(b) || x.loops[b] != nil || b == x.fn.Blocks[0] {
+		*budget--
+		return []edgeState{{cond: pc, st: st}}
+	}
+	var out []edgeState
+	n := 0
+	for _, p := range b.Preds {
+		ps, ok := x.exitSt[p]
+		if !ok {
+			continue
+		}
+		c, ok := x.edgeCond[[2]*ssa.BasicBlock{p, b}]
+		if !ok {
+			continue
+		}
+		n++
+		if _, isJump := p.Instrs[len(p.Instrs)-1].(*ssa.Jump); isJump && trivialBlock(p) {
+			out = append(out, x.leafContexts(p, c, ps, budget)...)
+		} else {
+			*budget--
+			out = append(out, edgeState{cond: c, st: ps})
+		}
+		if *budget < 0 {
+			return out
+		}
+	}
+	if n == 0 {
+		*budget--
+		return []edgeState{{cond: pc, st: st}}
+	}
+	return out
 }
 
 func (x *Exec) checkFrame(final *State, env *Env, exitPC Term) {
